@@ -348,6 +348,10 @@ func genWire(r *gen.Rand) []string {
 }
 
 func genCase(r *gen.Rand, w *gen.Writer) (string, []string) {
+	// one case in four goes to the second family of parser cases (gen2.go)
+	if r.Chance(1, 4) {
+		return genCase2(r, w)
+	}
 	switch x := r.Intn(100); {
 	case x < 38:
 		return "emit", genEmit(r, w)
